@@ -144,6 +144,8 @@ for isa in ("x86", "aarch64"):
         start, end = MARK[isa][style]
         body = [rnd.choice(BODY[isa]) for _ in range(rnd.randint(2, 6))]
         pro = [rnd.choice(BODY[isa]) for _ in range(rnd.randint(0, 3))] + [""] * rnd.randint(0, 2)
+        if vi in (1, 5):  # the kernel sits beyond line 1000 (line numbers are only labels)
+            pro = [("# filler" if isa == "x86" else "// filler")] * 1101 + pro
         epi = [rnd.choice(BODY[isa]) for _ in range(rnd.randint(0, 3))]
         marked = pro + start + body + end + epi
         first = len(pro) + len(start) + 1
